@@ -18,9 +18,13 @@ Build(slots, hashOf, tsOrder) ==
 
 GInit == case = [none |-> TRUE] /\ stage = "pick"
 
+\* completed splits that uploaded no file at all take part in the commit and contribute nothing
 Emit(V, mode, order) ==
-  case' = [versions |-> V, mode |-> mode, order |-> order, expected |-> MergeOp(V, mode),
-           single |-> Cardinality({v.split : v \in V}) = 1]
+  LET used == {v.split : v \in V}
+      unused == Splits \ used
+  IN \E em \in (IF Sample THEN {RandomElement(SUBSET unused)} ELSE {{}} \cup {{s} : s \in unused}) :
+       case' = [versions |-> V, mode |-> mode, order |-> order, expected |-> MergeOp(V, mode), empties |-> em,
+                single |-> Cardinality(used) = 1 /\ em = {}]
 
 Pick ==
   /\ stage = "pick"
